@@ -1,4 +1,386 @@
-import Kap.Basic
+/-
+Driver for C16: reads cases of op lines produced by the Go harness (which ran the REAL kapacitor code and
+re-parsed every issued query text with the real influxql parser), and for every line judges
+  * the property itself on the OBSERVED output (Kap/Spec/C16.lean)  → SPECFAIL, checked first;
+  * observed = model (Kap/Model/C16.lean)                            → MISMATCH.
+`now` of the machine is not on the wire: spans are generated before 2026 or after 2100 and the model
+runs with `nowAssumed` (2080), which gives the same answers as any real clock in between.
+-/
+import Kap.Spec.C16
+open Kap Kap.C16
 
-/-- Driver for property C16 (replaced by the property's driver). -/
-def main : IO Unit := Kap.driverMain (fun _ _ => .badop "driver not implemented")
+namespace Kap.C16
+
+def Cond.hasOr : Cond → Bool
+  | .atom _ => false
+  | .bin .or _ _ => true
+  | .bin .and l r => hasOr l || hasOr r
+  | .paren e => hasOr e
+
+def Cond.hasParen : Cond → Bool
+  | .atom _ => false
+  | .bin _ l r => hasParen l || hasParen r
+  | .paren _ => true
+
+def Cond.depth : Cond → Nat
+  | .atom _ => 0
+  | .bin _ l r => max (depth l) (depth r) + 1
+  | .paren e => depth e + 1
+
+end Kap.C16
+
+namespace Kap.C16.Drv
+
+def nowAssumed : Int := 3500000000 * 1000000000
+
+def parseTOp : String → Option TOp
+  | "ge" => some .ge | "lt" => some .lt | "gt" => some .gt | "le" => some .le | "eq" => some .eq | "ne" => some .ne
+  | _ => none
+
+def parseAtom (t : String) : Option Atom :=
+  if t.startsWith "A" then (t.drop 1).toString.toNat?.map Atom.opq
+  else if t.startsWith "T" then do
+    let op ← parseTOp ((t.drop 1).take 2).toString
+    let v ← (t.drop 3).toString.toInt?
+    pure (.time op v false)
+  else none
+
+def parseTok (t : String) : Option Tok :=
+  match t with
+  | "and" => some (.op .and)
+  | "or" => some (.op .or)
+  | "lp" => some .lp
+  | "rp" => some .rp
+  | _ => (parseAtom t).map Tok.atom
+
+/-- `-` = no WHERE clause. -/
+def parseToks (s : String) : Option (Option (List Tok)) :=
+  if s == "-" then some none else ((s.splitOn ",").mapM parseTok).map some
+
+partial def parseTree : List String → Option (Cond × List String)
+  | "and" :: rest => do
+    let (l, r1) ← parseTree rest; let (r, r2) ← parseTree r1; pure (.bin .and l r, r2)
+  | "or" :: rest => do
+    let (l, r1) ← parseTree rest; let (r, r2) ← parseTree r1; pure (.bin .or l r, r2)
+  | "P" :: rest => do
+    let (e, r1) ← parseTree rest; pure (.paren e, r1)
+  | t :: rest => (parseAtom t).map (fun a => (.atom a, rest))
+  | [] => none
+
+/-- Observed tree: `-` = no condition; `none` = not a tree the model can express. -/
+def parseObsTree (s : String) : Option (Option Cond) :=
+  if s == "-" then some none else
+  match parseTree (s.splitOn ",") with
+  | some (c, []) => some (some c)
+  | _ => none
+
+def kvGet (kvs : List String) (k : String) : Option String :=
+  kvs.findSome? (fun t => if t.startsWith (k ++ "=") then some (t.drop (k.length + 1)).toString else none)
+
+def kvInt (kvs : List String) (k : String) : Option Int := (kvGet kvs k).bind String.toInt?
+
+structure Acc where
+  br : List String := []
+  nt : Bool := false
+
+def Acc.add (a : Acc) (b : String) : Acc := if a.br.contains b then a else { a with br := b :: a.br }
+def Acc.addIf (a : Acc) (c : Bool) (b : String) : Acc := if c then a.add b else a
+
+def userTimeish (c : Cond) : Bool := !c.timeLits.isEmpty || c.opqIds.any (· ≥ 100)
+
+def shapeBranches (a : Acc) (user : Option Cond) : Acc :=
+  match user with
+  | none => a.add "no-where"
+  | some c =>
+    let a := match c with
+      | .bin .or _ _ => a.add "top-or-gets-paren"
+      | .bin .and _ _ => a.add "top-and"
+      | .atom _ => a.add "top-atom"
+      | .paren _ => a.add "top-paren"
+    let a := a.addIf (userTimeish c) "user-time-predicate"
+    let a := a.addIf c.hasParen "user-paren"
+    let a := a.addIf (c.depth ≥ 3) "deep"
+    a.addIf (match c with | .bin .and l r => (l.hasOr || r.hasOr) | _ => false) "or-under-and"
+
+abbrev J := Except Verdict
+
+def bad (l : String) : J α := .error (.badop l)
+
+/-! ### splice -/
+
+def judgeSplice (a : Acc) (l : String) (op obs : List String) : J Acc := do
+  let [_, toksS, s, e, s2, e2] := op | bad l
+  let some s := s.toInt? | bad l
+  let some e := e.toInt? | bad l
+  let some s2 := s2.toInt? | bad l
+  let some e2 := e2.toInt? | bad l
+  let some toks := parseToks toksS | bad l
+  let some nq := kvGet obs "nq" | bad l
+  -- the model's reading of the user's text
+  let userM : Option (Option Cond) := match toks with
+    | none => some none
+    | some ts => (parse ts).map some
+  match userM with
+  | none =>
+    if nq != "err" then .error (.mismatch s!"the model parser rejects {toksS}, NewQuery accepted it")
+    pure (a.add "parse-reject")
+  | some user =>
+    if nq != "ok" then .error (.mismatch s!"the model parser accepts {toksS}, NewQuery said {nq}")
+    let some ucS := kvGet obs "uc" | bad l
+    let some uc := parseObsTree ucS | .error (.mismatch s!"user condition re-parsed by influxql is outside the model: {ucS}")
+    if uc != user then .error (.mismatch s!"user condition: influxql parsed {ucS}, the model parser differs")
+    let some q1S := kvGet obs "q1" | bad l
+    let q1? := parseObsTree q1S
+    -- (1) on the observed text
+    match q1? with
+    | some (some q1) =>
+      if !rangeHolds uc q1 s e then
+        .error (.specfail "time-bound-and-user-condition" s!"issued {q1S} for [{s},{e}) is not (user condition) AND range; user {ucS}")
+    | _ => .error (.specfail "time-bound-and-user-condition" s!"issued condition is not readable: {q1S}")
+    -- what influxdb's own time-range extraction makes of it
+    let some trS := kvGet obs "tr" | bad l
+    let timeish := match user with | some c => userTimeish c | none => false
+    match trS.splitOn ":" with
+    | [mn, mx] =>
+      let some mn := mn.toInt? | bad l
+      let some mx := mx.toInt? | bad l
+      if !(decide (s ≤ mn) && decide (mx < e)) then
+        .error (.specfail "influx-time-range" s!"influxql.ConditionExpr range [{mn},{mx}] exceeds [{s},{e})")
+      if !timeish && !(mn == s && mx == e - 1) then
+        .error (.specfail "influx-time-range" s!"influxql.ConditionExpr range [{mn},{mx}] is not [{s},{e})")
+    | _ => if !timeish then .error (.specfail "influx-time-range" s!"influxql.ConditionExpr rejects the issued condition")
+    -- model
+    let q := (newQuery user none false).setRange (s, e)
+    if q.issue.cond != (q1?.bind id) then .error (.mismatch s!"issued condition {q1S} differs from the model's")
+    let some cl := kvGet obs "cl" | bad l
+    if cl != "ok" then .error (.specfail "clone-usable" s!"Clone of a fresh query answered {cl}")
+    let some qc := q.clone | .error (.mismatch "model Clone fails, real Clone succeeded")
+    let some q2S := kvGet obs "q2" | bad l
+    match parseObsTree q2S with
+    | some (some q2) =>
+      if !rangeHolds uc q2 s2 e2 then
+        .error (.specfail "clone-time-bound" s!"clone issued {q2S} for [{s2},{e2}); user {ucS}")
+      if (qc.setRange (s2, e2)).issue.cond != some q2 then .error (.mismatch s!"clone's condition {q2S} differs from the model's")
+    | _ => .error (.specfail "clone-time-bound" s!"clone's condition is not readable: {q2S}")
+    if kvGet obs "orig" != some "1" then
+      .error (.specfail "clone-independent" "setting the clone's times changed the original query")
+    let a := shapeBranches a user
+    let a := a.addIf (decide (e ≤ s)) "empty-range"
+    let nt := match user with | some c => c.hasOr && c.natoms ≥ 2 | none => false
+    pure { a with nt := a.nt || nt }
+
+/-! ### tick / livereal -/
+
+def judgeTick (a : Acc) (l : String) (op obs : List String) : J Acc := do
+  let [_, d, al, now] := op | bad l
+  let some d := d.toInt? | bad l
+  let some now := now.toInt? | bad l
+  let al := al == "1"
+  let [nx] := obs | bad l
+  let some nx := nx.toInt? | .error (.specfail "tick-next" s!"timeTicker.Next answered {obs}")
+  if al then
+    if !(decide (now < nx) && decide ((nx + zeroOff) % d = 0) && decide (nx - d ≤ now)) then
+      .error (.specfail "tick-aligned-next" s!"every {d} aligned: Next({now}) = {nx} is not the first multiple after it")
+  else if nx != now + d then
+    .error (.specfail "tick-next" s!"every {d}: Next({now}) = {nx}")
+  if tickerNext d al now != nx then .error (.mismatch s!"Next({now}) every {d} align {al}: model {tickerNext d al now} observed {nx}")
+  let r := (now + zeroOff) % d
+  let a := if !al then a.add "unaligned" else
+    if r = 0 then a.add "phase-0" else if r + r < d then a.add "phase-below-half"
+    else if r + r = d || r + r = d + 1 then a.add "phase-half" else a.add "phase-above-half"
+  let a := a.addIf (al && (86400000000000 : Int) % d ≠ 0) "every-not-dividing-day"
+  let a := a.addIf (al && now < 0) "before-1970"
+  pure { a with nt := a.nt || (al && r ≠ 0) }
+
+def judgeLiveReal (a : Acc) (l : String) (op obs : List String) : J Acc := do
+  let [_, msS, nS] := op | bad l
+  let some msV := msS.toInt? | bad l
+  let some n := nS.toNat? | bad l
+  let d := msV * 1000000
+  let some relS := kvGet obs "rel" | bad l
+  let want : List Int := (List.range n).map (fun (k : Nat) => ((k : Int) + 1) * d)
+  let model := (List.range n).map (fun k => liveTick d true 0 k - goTruncate 0 d)
+  let got := if relS == "-" then some [] else (relS.splitOn ",").mapM String.toInt?
+  if got != some want then
+    .error (.specfail "live-aligned-ticks" s!"aligned ticker every {d}: ticks relative to Truncate(start) {relS}, expected the next {n} multiples")
+  if got != some model then .error (.mismatch s!"aligned live ticks {relS} differ from the model")
+  pure ({ a with nt := true }.add "live-real-aligned")
+
+/-! ### sched -/
+
+structure ObsQ where
+  cond : Option Cond
+  gb : Option (Int × Int)
+  raw : String
+deriving Inhabited
+
+def parseGb (s : String) : Option (Option (Int × Int)) :=
+  if s == "-" then some none else
+  match s.splitOn ":" with
+  | [a, b] => do let a ← a.toInt?; let b ← b.toInt?; pure (some (a, b))
+  | _ => none
+
+def parseObsQ (s : String) : Option ObsQ :=
+  match s.splitOn ";" with
+  | [tree, gb, _crc] => do
+    let c ← parseObsTree tree
+    let g ← parseGb gb
+    pure { cond := c, gb := g, raw := s }
+  | _ => none
+
+def parseObsQs (s : String) : Option (List ObsQ) :=
+  if s == "-" then some [] else (s.splitOn "|").mapM parseObsQ
+
+def parseDBRPs (s : String) : List DBRP :=
+  if s == "-" || s.isEmpty then [] else
+  (s.splitOn ",").filterMap (fun x => match x.splitOn "." with
+    | [d, r] => some (d, r)
+    | _ => none)
+
+def sameIssued (o : ObsQ) (m : Issued) : Bool := o.cond == m.cond && o.gb == m.gb
+
+def sameList (os : List ObsQ) (ms : List Issued) : Bool :=
+  os.length == ms.length && (os.zip ms).all (fun p => sameIssued p.1 p.2)
+
+/-- final state of the node's own query after the live ticks -/
+def liveFinal (offset period : Int) : Query → List Int → Query
+  | q, [] => q
+  | q, t :: ts => liveFinal offset period (doQuery offset period q t).1 ts
+
+def judgeSched (a : Acc) (l : String) (op obs : List String) : J Acc := do
+  let kv := op.drop 1
+  let some toksS := kvGet kv "toks" | bad l
+  let some toks := parseToks toksS | bad l
+  let user : Option Cond ← match toks with
+    | none => pure none
+    | some ts => match parse ts with
+      | some c => pure (some c)
+      | none => bad l
+  let some per := kvInt kv "per" | bad l
+  let some off := kvInt kv "off" | bad l
+  let some ev := kvInt kv "ev" | bad l
+  let some cron := kvInt kv "cron" | bad l
+  let some gb := kvInt kv "gb" | bad l
+  let some gbo := kvInt kv "gbo" | bad l
+  let some start := kvInt kv "start" | bad l
+  let some stopS := kvGet kv "stop" | bad l
+  let stop : Option Int := if stopS == "z" then none else stopS.toInt?
+  let al := kvGet kv "al" == some "1"
+  let ag := kvGet kv "ag" == some "1"
+  let lt := kvGet kv "lt" == some "1"
+  let some ticksS := kvGet kv "ticks" | bad l
+  let some ticks := (if ticksS == "-" then some [] else (ticksS.splitOn ",").mapM String.toInt?) | bad l
+  let decl := parseDBRPs ((kvGet kv "decl").getD "")
+  let nodes := (((kvGet kv "from").getD "").splitOn "/").map parseDBRPs
+  let some st := kvGet obs "st" | bad l
+  -- schedule selection
+  match chooseSched ev al (cron != 0) with
+  | none =>
+    if st != "err:sched" then .error (.mismatch s!"every={ev} cron={cron}: the model rejects the schedule, the node said {st}")
+    pure (a.add (if ev < 0 then "sched-reject-negative" else if ev = 0 then "sched-reject-none" else "sched-reject-both"))
+  | some sch =>
+    if st != "ok" then
+      if st == "err:sched" then .error (.mismatch s!"every={ev} cron={cron}: the model accepts the schedule, the node rejected it")
+      else bad s!"task did not start ({st}): {l}"
+    let K := cron * 1000000000
+    let next : Int → Option Int := match sch with
+      | .every d x => fun t => some (tickerNext d x t)
+      | .cron => cronNext K
+    let specSch : Schedule := match sch with
+      | .every d x => .every d x
+      | .cron => .cronEvery K
+    let gbCfg : Option (Int × Int) := if gb != 0 then some (gb, gbo) else none
+    let q0 := newQuery user gbCfg ag
+    -- (6) sources
+    let hsrc := parseDBRPs ((kvGet obs "hsrc").getD "")
+    let lsrc := parseDBRPs ((kvGet obs "lsrc").getD "")
+    if !onlyDeclared decl hsrc then .error (.specfail "only-declared-dbrps" s!"historical queries read {hsrc}, declared {decl}")
+    if !onlyDeclared decl lsrc then .error (.specfail "only-declared-dbrps" s!"live queries read {lsrc}, declared {decl}")
+    let some h := kvGet obs "h" | bad l
+    let some lS := kvGet obs "l" | bad l
+    match startBatching decl nodes with
+    | none =>
+      if h != "err:dbrp" then .error (.mismatch s!"undeclared source: BatchQueries answered {h}")
+      if lS != "err:dbrp" then .error (.mismatch s!"undeclared source: StartBatching answered {lS}")
+      pure ({ a with nt := true }.add (if nodes.length > 1 then "dbrp-refused-multi-node" else "dbrp-refused"))
+    | some _ =>
+      if h != "ok" then .error (.mismatch s!"declared sources: BatchQueries answered {h}")
+      if lS != "ok" then .error (.mismatch s!"declared sources: StartBatching answered {lS}")
+      let some H := (kvGet obs "H").bind parseObsQs | bad l
+      let some L := (kvGet obs "L").bind parseObsQs | bad l
+      let some H2 := (kvGet obs "H2").bind parseObsQs | bad l
+      if kvGet obs "h2" != some "ok" then .error (.mismatch s!"second BatchQueries answered {kvGet obs "h2"}")
+      -- every live source must be the union of the declared nodes' sources
+      -- (1)(2)(5) on the live queries
+      if L.length != ticks.length then
+        .error (.specfail "one-query-per-tick" s!"{ticks.length} ticks, {L.length} queries")
+      for (o, T) in L.zip ticks do
+        let r := rangeOfTick off per T
+        match o.cond with
+        | some c =>
+          if !rangeHolds user c r.1 r.2 then
+            .error (.specfail "live-range-exact" s!"tick {T}: issued {o.raw}, expected the user condition on [{r.1},{r.2})")
+        | none => .error (.specfail "live-range-exact" s!"tick {T}: issued text has no readable condition: {o.raw}")
+        match gbCfg with
+        | some g =>
+          if ag then
+            match o.gb with
+            | some og =>
+              if og.1 != g.1 || !gbAligned r.1 og then
+                .error (.specfail "group-by-aligned" s!"tick {T}: group by time{og} is not aligned with the range start {r.1}")
+            | none => .error (.specfail "group-by-kept" s!"tick {T}: the time dimension is gone")
+          else if o.gb != some g then .error (.specfail "group-by-kept" s!"tick {T}: group by {o.gb}, configured {g}")
+        | none => if o.gb.isSome then .error (.specfail "group-by-kept" s!"tick {T}: unexpected time dimension")
+      -- (4) history = live
+      let s' := effStop stop nowAssumed
+      if lt then
+        if !ticksExact specSch start s' start ticks then bad s!"the injected ticks are not the live ticks of the span: {l}"
+        let expect := (L.zip ticks).filter (fun p => decide (p.2 - off ≤ nowAssumed)) |>.map (·.1.raw)
+        if H.map (·.raw) != expect then
+          .error (.specfail "historical-equals-live" s!"span ({start},{s'}]: historical {H.map (·.raw)} live {expect}")
+        if H2.map (·.raw) != expect then
+          .error (.specfail "historical-after-live" s!"span ({start},{s'}] after the live ticks: historical {H2.map (·.raw)} live {expect}")
+      -- model
+      let some Hm := queries next off per q0 start stop nowAssumed | .error (.mismatch "model Clone failed")
+      if !sameList H Hm then .error (.mismatch s!"historical list differs from the model: observed {H.map (·.raw)}")
+      if !sameList L (liveRun off per q0 ticks) then .error (.mismatch s!"live list differs from the model: observed {L.map (·.raw)}")
+      let qf := liveFinal off per q0 ticks
+      let some H2m := queries next off per qf start stop nowAssumed | .error (.mismatch "model Clone failed")
+      if !sameList H2 H2m then .error (.mismatch s!"historical list after live ticks differs from the model: observed {H2.map (·.raw)}")
+      -- coverage
+      let a := shapeBranches a user
+      let phase := match sch with | .every d true => (start + zeroOff) % d | _ => 0
+      let a := match sch with
+        | .every d true => if phase = 0 then a.add "aligned-phase-0" else if phase + phase < d then a.add "aligned-phase-below-half" else a.add "aligned-phase-half-or-above"
+        | .every _ false => a.add "every-unaligned"
+        | .cron => a.add "cron"
+      let a := a.addIf (lt && H.isEmpty) "hist-empty"
+      let a := a.addIf (lt && ticks.getLast? == some s') "hist-stop-on-tick"
+      let a := a.addIf (lt && !ticks.isEmpty && H.isEmpty) "hist-now-cutoff"
+      let a := a.addIf (decide (off > per)) "offset-above-period"
+      let a := a.addIf (decide (off < 0)) "offset-negative"
+      let a := a.addIf (per == 0) "period-0"
+      let a := a.addIf (ag && gbCfg.isSome) "aligngroup"
+      let a := a.addIf (ag && gbCfg.isNone) "aligngroup-without-time"
+      let a := a.addIf (gbCfg.isSome && gbo != 0) "group-by-user-offset"
+      let a := a.addIf (!lt) "arbitrary-ticks"
+      let a := a.addIf (nodes.length > 1) "multi-node"
+      let a := a.addIf (start < 0) "before-1970"
+      pure { a with nt := a.nt || H.length ≥ 2 || (!lt && L.length ≥ 2) }
+
+def judge (_id : String) (lines : Array String) : Verdict :=
+  let r : J Acc := lines.foldlM (init := ({} : Acc)) (fun a l =>
+    let (op, obs) := splitObs (tokens l)
+    match op.head? with
+    | some "splice" => judgeSplice a l op obs
+    | some "tick" => judgeTick a l op obs
+    | some "livereal" => judgeLiveReal a l op obs
+    | some "sched" => judgeSched a l op obs
+    | _ => bad l)
+  match r with
+  | .ok a => .ok a.nt a.br.reverse
+  | .error v => v
+
+end Kap.C16.Drv
+
+def main : IO Unit := Kap.driverMain Kap.C16.Drv.judge
